@@ -417,6 +417,10 @@ mutual
            (match E.nd.kids.lookup c with
             | some acc => some (acc (evalKw E g fr kw) g)
             | none => some (.none, g))
+         | .node [a, c] =>
+           (match E.nd.kids.lookup (a ++ "." ++ c) with
+            | some acc => some (acc (evalKw E g fr kw) g)
+            | none => some (.none, g))
          | .loc x =>
            (match fr.get x with
             | .child i => (match E.nd.children[i]? with | some acc => some (acc (evalKw E g fr kw) g) | none => none)
@@ -900,5 +904,88 @@ theorem string_eq (fc : FCtx) (nd : Node) (g : G) (n : Nat) (v : String) (hb : B
               { g with st := (buildExpr fc (.str v) g.st).2, tys := ((buildExpr fc (.str v) g.st).1, "string") :: g.tys }) := by
   simp [callFn, accept_StringNode, bindParams, exec, ↓call_v_val, ↓call_s_dt, hb, evalE, evalA, evalKw, Fr.set, Fr.get,
     List.lookup, blankRow, St.new, relateV, linkFrom, newVal, setRef, partnerOk, linkKey, buildExpr, hv, kwStr]
+
+/-! ### final round: boolean literal, blocks, delete -/
+
+theorem upper_true : String.ofList ("true".toList.map Char.toUpper) = "TRUE" := by decide
+theorem upper_false : String.ofList ("false".toList.map Char.toUpper) = "FALSE" := by decide
+
+theorem boolean_eq (fc : FCtx) (nd : Node) (g : G) (n : Nat) (v : String) (hb : BlkOK g.st)
+    (hv : nd.strs.lookup "value" = some v) (hlit : v = "true" ∨ v = "false") :
+    callFn (mkEnv fc nd) (n + 20) accept_BooleanNode [.node] [] g
+      = some (.inst (buildExpr fc (.bool v) g.st).1,
+              { g with st := (buildExpr fc (.bool v) g.st).2, tys := ((buildExpr fc (.bool v) g.st).1, "boolean") :: g.tys }) := by
+  rcases hlit with rfl | rfl <;>
+  simp [callFn, accept_BooleanNode, bindParams, exec, ↓call_v_val, ↓call_s_dt, hb, evalE, evalA, evalKw, Fr.set, Fr.get,
+    List.lookup, blankRow, St.new, relateV, linkFrom, newVal, setRef, partnerOk, linkKey, buildExpr, hv, kwStr,
+    upper_true, upper_false, boolValue, St.guard]
+
+theorem block_eq (fc : FCtx) (nd : Node) (g : G) (n : Nat) (acc : Acc)
+    (hk : nd.kids.lookup "statement_list" = some acc) :
+    callFn (mkEnv fc nd) (n + 20) accept_BlockNode [.node] [] g
+      = some (.inst (g.st.new (.blk false)).1,
+              { (acc [] { g with st := pushScope (.blk (g.st.new (.blk false)).1) (g.st.new (.blk false)).2 }).2 with
+                st := popScope (acc [] { g with st := pushScope (.blk (g.st.new (.blk false)).1) (g.st.new (.blk false)).2 }).2.st }) := by
+  simp [callFn, accept_BlockNode, bindParams, exec, evalE, evalA, evalKw, Fr.set, Fr.get, List.lookup, blankRow, St.new,
+    relateV, linkFrom, setElem, symtabCall, hk]
+
+theorem body_eq (fc : FCtx) (nd : Node) (g : G) (n : Nat) (acc : Acc)
+    (hk : nd.kids.lookup "block.statement_list" = some acc) :
+    callFn (mkEnv fc nd) (n + 20) accept_BodyNode [.node] [] g
+      = some (.actAct,
+              { (acc [] { g with st := pushScope (.blk (g.st.new (.blk true)).1) (g.st.new (.blk true)).2 }).2 with
+                st := popScope (acc [] { g with st := pushScope (.blk (g.st.new (.blk true)).1) (g.st.new (.blk true)).2 }).2.st }) := by
+  simp [callFn, accept_BodyNode, bindParams, exec, evalE, evalA, evalKw, Fr.set, Fr.get, List.lookup, blankRow, St.new,
+    relateV, linkFrom, setElem, symtabCall, hk]
+
+theorem lookupVar_pop (fc : FCtx) (n : String) (st : St) : ∃ ext, (lookupVar fc n st).2.pop = st.pop ++ ext := by
+  unfold lookupVar
+  split
+  · exact ⟨[], by simp [St.fail]⟩
+  · split
+    · exact ⟨[], by simp⟩
+    · split
+      · split
+        · rename_i kl _; exact ⟨[Row.var "self" (curBlkD st.scopes), Row.vint st.pop.length kl], by simp [newVar, St.new]⟩
+        · exact ⟨[], by simp⟩
+      · exact ⟨[], by simp⟩
+
+theorem delete_eq (fc : FCtx) (nd : Node) (g : G) (n : Nat) (name : String) (hb : BlkOK g.st)
+    (hn : nd.strs.lookup "variable_name" = some name)
+    (hvar : ∀ v, (lookupVar fc name (newSmt none g.st).2).1 = some v →
+      ∃ nm b, (lookupVar fc name (newSmt none g.st).2).2.pop[v]? = some (.var nm b)) :
+    callFn (mkEnv fc nd) (n + 20) accept_DeleteNode [.node] [] g
+      = some (.inst (buildStmt fc none (.delete name) g.st).1,
+              { g with st := (buildStmt fc none (.delete name) g.st).2 }) := by
+  obtain ⟨ext, hext⟩ := lookupVar_pop fc name (newSmt none g.st).2
+  have hs1 : (newSmt none g.st).1 = g.st.pop.length := by simp [newSmt, St.new]
+  have hs2 : (newSmt none g.st).2.pop = g.st.pop ++ [.smt (curBlkD g.st.scopes) none] := by simp [newSmt, St.new]
+  generalize hL : lookupVar fc name (newSmt none g.st).2 = L at hext hvar
+  obtain ⟨lv, ⟨lp, lsc, lok⟩⟩ := L
+  simp only at hext hvar
+  subst hext
+  have h603 : ((newSmt none g.st).2.pop ++ (ext ++ [Row.del 0 0]))[(newSmt none g.st).1]? = some (.smt (curBlkD g.st.scopes) none) := by
+    rw [hs1, hs2]; simp
+  have hdel : ∀ r0 : Row, ((newSmt none g.st).2.pop ++ (ext ++ [r0]))[(newSmt none g.st).2.pop.length + ext.length]? = some r0 := by
+    intro r0; rw [← List.append_assoc, ← List.length_append]; simp
+  have hset : ∀ r0 r' : Row, ((newSmt none g.st).2.pop ++ (ext ++ [r0])).set ((newSmt none g.st).2.pop.length + ext.length) r'
+      = (newSmt none g.st).2.pop ++ (ext ++ [r']) := by
+    intro r0 r'; rw [← List.append_assoc, ← List.length_append, ← List.append_assoc]; simp
+  cases lv with
+  | none =>
+    simp [callFn, accept_DeleteNode, bindParams, exec, ↓call_act_smt, hb, evalE, evalA, evalKw, Fr.set, Fr.get, List.lookup,
+      blankRow, St.new, relateV, linkFrom, setRef, partnerOk, linkKey, buildStmt, atomCall, hn, hL, needVar, h603, hdel,
+      gfail, St.fail, hset]
+  | some v =>
+    obtain ⟨nm, b, hv⟩ := hvar v rfl
+    have hvlt : v < ((newSmt none g.st).2.pop ++ ext).length := by
+      rcases Nat.lt_or_ge v ((newSmt none g.st).2.pop ++ ext).length with h | h
+      · exact h
+      · simp [List.getElem?_eq_none h] at hv
+    have hv' : ∀ r' : Row, ((newSmt none g.st).2.pop ++ (ext ++ [r']))[v]? = some (.var nm b) := by
+      intro r'; rw [← List.append_assoc, List.getElem?_append_left hvlt]; exact hv
+    simp [callFn, accept_DeleteNode, bindParams, exec, ↓call_act_smt, hb, evalE, evalA, evalKw, Fr.set, Fr.get, List.lookup,
+      blankRow, St.new, relateV, linkFrom, setRef, partnerOk, linkKey, buildStmt, atomCall, hn, hL, needVar, h603, hdel,
+      hv', hset]
 
 end Pyx.PbShape
